@@ -59,6 +59,7 @@ RAWC = {
     "rawdir-latex": ("rawnode", lambda i: f"```{{raw}} latex\n{S(i)}\n```\n"),
     "subst-html": ("raw", lambda i: "{{rawsub}}\n"),
     "subst-rst-ref": ("raw", lambda i: "inline {{rawsub}} use\n\n{{rawsub}}\n\n```{eval-rst}\nsee |rawsub| here\n```\n"),  # the MyST substitution is not an rST substitution definition
+    "footnote-in-discarded": ("raw", lambda i: f"x[^d{i}]\n\n```{{figure}} a.png\n- item\n\n  [^d{i}]: note {S(i)} and ~~s~~\n```\n"),
     "title-attr": ("esc", lambda i: f"[l](u '{S(i)}')\n"),
     "comment": ("rawnode-html", lambda i: f"<!-- {S(i)} -->\n"),
     "footnote-html": ("raw", lambda i: f"ref[^f{i}]\n\n[^f{i}]: note with {S(i)} and a\\\n  break\n"),
